@@ -453,6 +453,7 @@ def main(argv=None):
     workers = a.workers or (int(os.environ.get('WDV_WORKERS', '0')) or (4 if a.tier == 'quick' else 14))
     import multiprocessing as mp
     ctx = mp.get_context('spawn')
+    shrink_left = 90 if a.tier == 'quick' else 600      # seconds of shrinking per run, all buckets together
     for stage in prop.stages:
         if a.stage and stage.name not in a.stage:
             continue
@@ -493,9 +494,11 @@ def main(argv=None):
                 known_seen[bucket] = known[bucket]['text']
                 continue
             case, msg = e['case'], e['msg']
-            if stage.kind in ('given', 'machine') and shrunk < MAX_BUCKETS_SHRUNK and not os.environ.get('WDV_NO_SHRINK'):
+            if (stage.kind in ('given', 'machine') and shrunk < (3 if a.tier == 'quick' else MAX_BUCKETS_SHRUNK)
+                    and shrink_left > 5 and not os.environ.get('WDV_NO_SHRINK')):
                 shrunk += 1
-                budget = 60 if a.tier == 'quick' else 240
+                budget = min(shrink_left, 30 if a.tier == 'quick' else 150)
+                shrink_left -= budget
                 s = _worker((prop_id, stage.name, a.tier, seed, e['shard'], nshards, per, bucket, budget))
                 if s.get('best') is not None and s['best'][2] <= e['size']:
                     case, msg = s['best'][0], s['best'][1]
